@@ -291,6 +291,8 @@ def translate(repo):
         for s_ in fn.body:
             if isinstance(s_, ast.Expr) and isinstance(s_.value, ast.Constant):
                 continue
+            if isinstance(s_, ast.AnnAssign) and s_.value is not None:
+                s_ = ast.copy_location(ast.Assign(targets=[s_.target], value=s_.value), s_)
             if isinstance(s_, ast.Return) and s_.value is not None:
                 result_ = val(s_.value)
                 break
